@@ -178,12 +178,12 @@ func runHistory(ops []cliOp) (problems []string, canon string, applicable bool) 
 			if res := wk.Run(nil, "migrate", "apply", "--dir", dirURL, "--url", dbURL, "--tx-mode", "none", "--lock-timeout", "1ms"); res.Exit != 0 {
 				return []string{"harness: start_two_applied: " + res.String()}, "", true
 			}
-		case "add_ooo":
+		case "add_ooo", "add_ooo_bad":
 			v := strconv.Itoa(max - 1)
 			if max < 2 || w.files[v] != nil {
 				return nil, "", false
 			}
-			w.files[v] = &fileState{}
+			w.files[v] = &fileState{bad: op.Kind == "add_ooo_bad"}
 			w.write(wk)
 		case "fix":
 			any := false
@@ -338,6 +338,20 @@ func runHistory(ops []cliOp) (problems []string, canon string, applicable bool) 
 			if err != nil {
 				return []string{"harness: " + err.Error()}, "", true
 			}
+			// a partially applied file that is not the newest revision (an out-of-order file that failed
+			// under non-linear order): "the partially applied file first" - it must at least stay pending.
+			for i, r := range revs {
+				if r.Applied != r.Total && i != len(revs)-1 && w.files[r.V] != nil && op.Kind != "set" {
+					st := status(wk, dirURL, dbURL)
+					found := false
+					for _, p := range st.Pending {
+						found = found || p.Version == r.V
+					}
+					if !found {
+						bad("version %s is partially applied (%d/%d) but status does not list it as pending (pending %v)", r.V, r.Applied, r.Total, st.Pending)
+					}
+				}
+			}
 			if cfg, ok := config(w, revs, 0); ok && op.Kind != "set" {
 				want := refPending(cfg)
 				st := status(wk, dirURL, dbURL)
@@ -404,7 +418,7 @@ func status(wk *clih.Work, dirURL, dbURL string) statusOut {
 }
 
 func cliAlphabet() []cliOp {
-	return []cliOp{{Kind: "start_two_applied"}, {Kind: "add"}, {Kind: "add_bad"}, {Kind: "add_ck"}, {Kind: "add_ooo"}, {Kind: "apply"}, {Kind: "apply1"}, {Kind: "apply_nonlinear"}, {Kind: "apply_skip"},
+	return []cliOp{{Kind: "start_two_applied"}, {Kind: "add"}, {Kind: "add_bad"}, {Kind: "add_ck"}, {Kind: "add_ooo"}, {Kind: "add_ooo_bad"}, {Kind: "apply"}, {Kind: "apply1"}, {Kind: "apply_nonlinear"}, {Kind: "apply_skip"},
 		{Kind: "set", V: "1"}, {Kind: "set", V: "2"}, {Kind: "set", V: "3"}, {Kind: "set", V: "4"}, {Kind: "fix"}, {Kind: "remove_newest"}}
 }
 
@@ -469,7 +483,20 @@ var reSetPartial = regexp.MustCompile("^after `migrate set (\\d+)` status report
 // classifyCLI: the listed finding is "`migrate set v` on a version whose revision is partially applied
 // leaves it partial, so status/apply still treat v as pending" - the history must end with that set and
 // the first pending version must be v itself.
+var rePartialOOO = regexp.MustCompile(`^version \d+ is partially applied \(\d+/\d+\) but status does not list it as pending`)
+
 func classifyCLI(h []cliOp, problems []string) string {
+	allOOO := len(problems) > 0
+	for _, p := range problems {
+		allOOO = allOOO && rePartialOOO.MatchString(p)
+	}
+	if allOOO {
+		for _, o := range h {
+			if o.Kind == "add_ooo_bad" {
+				return "partially-applied-out-of-order-file-is-never-resumed"
+			}
+		}
+	}
 	if len(h) == 0 || h[len(h)-1].Kind != "set" {
 		return ""
 	}
